@@ -1,8 +1,6 @@
 //! R5 — reference text form: "enr:" + unpadded URL-safe base64 (RFC 4648 §5), own codec.
 
 const ALPHABET: &[u8; 64] = b"ABCDEFGHIJKLMNOPQRSTUVWXYZabcdefghijklmnopqrstuvwxyz0123456789-_";
-pub const STD_ALPHABET: &[u8; 64] =
-    b"ABCDEFGHIJKLMNOPQRSTUVWXYZabcdefghijklmnopqrstuvwxyz0123456789+/";
 
 pub fn b64url_encode(data: &[u8]) -> String {
     encode_with(data, ALPHABET)
